@@ -212,7 +212,11 @@ func (c *Ctx) verdict(rule, key, pos string, problems []string, okDetail string)
 }
 
 func c01Decoder(c *Ctx, rule string, f *ssa.Function, method bool) {
-	c.R.Rule(rule, 2, "both header decoders read exactly 2 + extra bytes and decode every field per RFC 6455 5.2")
+	floor := 2
+	if !strings.HasPrefix(rule, "C01.") {
+		floor = 1 // other properties fold only the decoder they depend on
+	}
+	c.R.Rule(rule, floor, "both header decoders read exactly 2 + extra bytes and decode every field per RFC 6455 5.2")
 	if f == nil {
 		return
 	}
